@@ -489,7 +489,14 @@ def run_histories(seed, budget, n_hist, length, weights=None, nproj=2, extra_che
             for step in range(length):
                 t = h.step(weights)
                 evals += 1
-                bad = t[5:] if t.startswith("FAIL:") else h.check_all(f"after step {step} ({t})")
+                if t.startswith("FAIL:"):
+                    bad = t[5:]
+                else:
+                    try:
+                        bad = h.check_all(f"after step {step} ({t})")
+                    except Exception as e:
+                        import traceback
+                        bad = f"after step {step} ({t}): observing the projects raised {type(e).__name__}: {e} :: {traceback.format_exc()[-500:]}"
                 if bad is None and extra_check is not None:
                     bad = extra_check(h, step)
                 if bad:
